@@ -493,6 +493,156 @@ fn replay(args: &Args, path: &str) -> ! {
             if let Some(rt) = case["request"].as_str() {
                 let req = parse_request_text(rt);
                 let bad = prom_oracle(&req, &ic, false);
+                println!("oracle failures: {:?}", bad);
+                failed |= !bad.is_empty();
+            }
+        }
+        "handler" => {
+            let body = unhex(case["body_hex"].as_str().unwrap_or(""));
+            let mut env = HandlerEnv::new();
+            let (st, _, fl) = env.post(body.clone(), true);
+            let dec = snap::raw::Decoder::new().decompress_vec(&body).ok();
+            let ms = model.ask(&format!("H d {}", dec.as_ref().map(|d| hex(d)).unwrap_or("-".into())));
+            println!("status impl {} model {}\nflushed {:?}", st, ms, fl);
+            failed = st == "PANIC" || (!model.is_null() && st != ms);
+        }
+        "otlp" => {
+            use prost::Message;
+            let bytes = unhex(case["hex"].as_str().unwrap_or(""));
+            let req = opentelemetry_proto::tonic::collector::metrics::v1::ExportMetricsServiceRequest::decode(&bytes[..]).expect("decode");
+            let out = catch(AssertUnwindSafe(|| cardinalsin::api::ingest::otlp::export_request_to_arrow(&req).map_err(|e| e.to_string())));
+            let bad = otlp::oracle(&req, &out);
+            println!("request: {:?}\nclasses: {}\noracle failures: {:?}", otlp::request_text(&req), model.ask(&format!("K {}", otlp::classifier_text(&req))), bad);
+            failed = !bad.is_empty();
+        }
+        "otlp_bytes" => {
+            let r = worker.ask(&format!("T {}", case["hex"].as_str().unwrap_or("")), WATCHDOG);
+            let s = match r { Answer::Line(l) => l, Answer::Hang => "HANG".into(), Answer::Died => "ABORT".into() };
+            println!("otlp bytes -> {}", s);
+            failed = s.starts_with("PANIC") || s == "HANG" || s == "ABORT";
+        }
+        "flight" => {
+            let r = worker.ask(&format!("F {}", case["frames"].as_str().unwrap_or("")), WATCHDOG);
+            let s = match r { Answer::Line(l) => l, Answer::Hang => "HANG".into(), Answer::Died => "ABORT".into() };
+            println!("flight frames -> {}", s);
+            failed = s.starts_with("PANIC") || s == "HANG" || s == "ABORT";
+        }
+        _ => println!("unknown replay kind {}", kind),
+    }
+    std::process::exit(if failed { 1 } else { 0 });
+}
+
+fn parse_request_text(s: &str) -> Vec<wire::GSeries> {
+    if s == "-" {
+        return vec![];
+    }
+    s.split('/')
+        .map(|ser| {
+            let (ls, ss) = ser.split_once('|').unwrap_or((ser, ""));
+            wire::GSeries {
+                labels: ls.split(',').filter(|x| !x.is_empty()).map(|l| { let (a, b) = l.split_once(':').unwrap_or((l, "")); wire::GLabel { name: unhex(a), value: unhex(b) } }).collect(),
+                samples: ss.split(',').filter(|x| !x.is_empty()).map(|x| { let (t, v) = x.split_once(':').unwrap_or((x, "0")); wire::GSample { ts: t.parse().unwrap_or(0), bits: v.parse().unwrap_or(0) } }).collect(),
+            }
+        })
+        .collect()
+}
+
+fn main() {
+    if std::env::args().nth(1).as_deref() == Some("worker") {
+        worker_main();
+        return;
+    }
+    let args = Args::parse();
+    csv_common::quiet_panics();
+    if let Some(path) = &args.replay {
+        replay(&args, path);
+    }
+    let thorough = args.thorough();
+    let n_structured = if thorough { 20_000 } else { 2_000 };
+    let n_malformed = if thorough { 100_000 } else { 5_000 };
+    let n_handler = if thorough { 1_000 } else { 150 };
+    let n_otlp = if thorough { 10_000 } else { 1_200 };
+    let n_otlp_bytes = if thorough { 10_000 } else { 1_000 };
+    let n_flight = if thorough { 3_000 } else { 400 };
+    // `--only prom|otlp|flight` restricts the run to one protocol (debugging aid)
+    let only = args.get("only").unwrap_or("").to_string();
+    let (n_structured, n_malformed) = if only.is_empty() || only == "prom" { (n_structured, n_malformed) } else { (0, 0) };
+    let (n_otlp, n_otlp_bytes) = if only.is_empty() || only == "otlp" { (n_otlp, n_otlp_bytes) } else { (0, 0) };
+    let n_flight = if only.is_empty() || only == "flight" { n_flight } else { 0 };
+
+    let mut cx = Ctx { model: Model::spawn(&args.model), worker: Worker::spawn(), report: Report::new("C17"), t_model: 0.0, t_worker: 0.0 };
+    let mut rng = Rng::new(args.seed);
+    let mut henv = HandlerEnv::new();
+    let t_start = std::time::Instant::now();
+    let mut lap = t_start;
+    let mut laps: Vec<String> = Vec::new();
+    macro_rules! lap {
+        ($name:expr) => {{
+            let now = std::time::Instant::now();
+            laps.push(format!("{} {:.1}s", $name, (now - lap).as_secs_f64()));
+            lap = now;
+        }};
+    }
+
+    // ------------------------------------------------ 0. corpus of hostile inputs
+    for (bytes, name) in wire::corpus() {
+        cx.report.case(None);
+        cx.report.bump(name);
+        cx.report.bump("stream.malformed");
+        let (ip, ic, _) = cx.check_bytes(&bytes, name);
+        cx.no_crash_oracle(&bytes, &ip, &ic, name);
+        // the same body through the public handler
+        let body = snap::raw::Encoder::new().compress_vec(&bytes).unwrap();
+        let (st, _, _) = henv.post(body.clone(), false);
+        cx.report.impl_runs += 1;
+        let (d, ms) = cx.model.differs(&format!("H d {}", hex(&bytes)), &st);
+        if st == "PANIC" {
+            cx.report.oracle_violation("", &format!("handle_remote_write panicked on corpus input {}", name), json!({"kind": "handler", "body_hex": hex(&body), "decompressed_hex": hex(&bytes)}));
+        } else if d {
+            cx.report.disagreement(json!({"correspondence": "handler status model (ProtoConv.handle) vs handle_remote_write", "case": {"kind": "handler", "body_hex": hex(&body)}, "impl": st, "model": ms, "shrunk": {"kind": "handler", "body_hex": hex(&body)}, "oracle_failed": false}));
+        }
+    }
+
+    lap!("corpus");
+    // ------------------------------------------------ 1. structured remote-write
+    let handler_every = (n_structured / n_handler.max(1)).max(1);
+    for k in 0..n_structured {
+        let mut r = rng.fork();
+        let mut bumps: Vec<String> = Vec::new();
+        let opts = wire::GenOpts { invalid_utf8: false, reserved_names: r.chance(1, 6) };
+        let req = wire::gen_request(&mut r, &opts, &mut |s| bumps.push(s.to_string()));
+        let canonical = r.chance(1, 2);
+        let (enc, feats) = if canonical { (wire::encode_canonical(&req), vec![]) } else { wire::encode_variant(&req, &mut r) };
+        let text = wire::request_text(&req);
+        let total: usize = req.iter().map(|t| t.samples.len()).sum();
+        cx.report.case(if total > 0 { Some(&text) } else { None });
+        cx.report.bump("stream.structured");
+        cx.report.bump(if canonical { "encoding.canonical" } else { "encoding.variant" });
+        for f in &feats {
+            cx.report.bump(&format!("encoding.{}", f));
+        }
+        for b in &bumps {
+            cx.report.bump(b);
+        }
+        let (ip, ic, differs) = cx.check_bytes(&enc.buf, "structured");
+        if k < 3 {
+            cx.report.sample(json!({"request": text, "bytes": hex(&enc.buf), "impl_parse": ip, "impl_convert": ic}));
+        }
+        // the canonical encoder of the harness is the model's encoder
+        if canonical {
+            let (d, me) = cx.model.differs(&format!("E {}", text), &hex(&enc.buf));
+            if d {
+                cx.report.disagreement(json!({"correspondence": "hand encoder of the harness vs enc_request of the model", "case": {"kind": "prom", "hex": hex(&enc.buf), "request": text}, "impl": hex(&enc.buf), "model": me, "shrunk": {"kind": "prom", "hex": hex(&enc.buf)}, "oracle_failed": false}));
+            }
+            // parse_encode on the implementation: the reader returns exactly the request
+            if ip != format!("OK {}", text) {
+                cx.report.oracle_violation("", &format!("canonical encoding of a well-formed request decoded as {}", &ip[..ip.len().min(200)]), json!({"kind": "prom", "hex": hex(&enc.buf), "request": text}));
+            }
+        }
+        // oracle on what the conversion produced (the decoded request is `req` also for the
+        // non-canonical variants: a repeated scalar keeps the last occurrence, which the
+        // encoder makes the real one; omitted fields are the defaults; unknown fields are skipped)
+        let bad = prom_oracle(&req, &ic, false);
         if !bad.is_empty() {
             cx.report.oracle_violation("", &bad.join("; "), json!({"kind": "prom", "hex": hex(&enc.buf), "request": text, "features": feats}));
         }
